@@ -333,6 +333,7 @@ class C05Monitor(X.Monitor):
         for g in fr.frame_ground_truth.objects:
             gt_counts[V.label_of(g)] = gt_counts.get(V.label_of(g), 0) + 1
         policy = lane.config.label_params["matching_label_policy"].value
+        OS.check_configured_thresholds(ctx, "C05", st.index, fr.metrics_score.tracking_scores, "frame", ctx.plan["config"], "clear")
         check_clear_scores(ctx, lane, st.index, fr.metrics_score.tracking_scores, [prev, fr.object_results], gt_counts, labels, policy, "frame")
 
     def on_scene(self, ctx, lane, manager, rec, index):
@@ -346,6 +347,7 @@ class C05Monitor(X.Monitor):
             for g in fr.frame_ground_truth.objects:
                 gt_counts[V.label_of(g)] = gt_counts.get(V.label_of(g), 0) + 1
         policy = lane.config.label_params["matching_label_policy"].value
+        OS.check_configured_thresholds(ctx, "C05", index, score.tracking_scores, "scene", ctx.plan["config"], "clear")
         check_clear_scores(ctx, lane, index, score.tracking_scores, [[]] + [fr.object_results for fr in frames], gt_counts, labels, policy, "scene")
         self._perfect_tracker(ctx, lane, frames, score, index)
 
